@@ -49,6 +49,7 @@ type c08Probe struct {
 	T      uint64 `json:"t"`               // edit time of the commit
 	Signer int    `json:"s"`               // -1 nobody, 0..2 pool key, 3 the stranger's key
 	Alter  int    `json:"alter,omitempty"` // 0 no, 1 operations swapped after signing, 2 edit clock changed after signing
+	Warm   int    `json:"warm,omitempty"`  // k+1: before this probe is read, a commit carrying the SAME operations and genuinely signed by pool key k is read in the same process
 }
 type c08Write struct {
 	Have []int `json:"have"` // private keys present in the keyring
@@ -223,6 +224,8 @@ func c08ProbesFor(vs []c08Version) []c08Probe {
 			s = ks[0]
 		}
 		res = append(res, c08Probe{T: t, Signer: s, Alter: 1}, c08Probe{T: t, Signer: s, Alter: 2})
+		// the same operations, first seen genuinely signed by the right key, then met again unsigned / signed by a stranger
+		res = append(res, c08Probe{T: t, Signer: -1, Warm: s + 1}, c08Probe{T: t, Signer: c08PoolSize, Warm: s + 1})
 	}
 	return res
 }
@@ -471,18 +474,42 @@ func c08TreeOf(repo repository.ClockedRepo, emptyBlob, ops repository.Hash, edit
 
 // c08Commit writes the probe's commit and returns (commit, bug id).
 func c08Commit(repo repository.ClockedRepo, gr *git.Repository, author identity.Interface, p c08Probe, n int) (repository.Hash, entity.Id, error) {
+	h, id, _, err := c08CommitWarm(repo, gr, author, p, n)
+	return h, id, err
+}
+
+// c08CommitWarm also returns the genuinely signed twin (same operations) to be read first, if any.
+func c08CommitWarm(repo repository.ClockedRepo, gr *git.Repository, author identity.Interface, p c08Probe, n int) (repository.Hash, entity.Id, repository.Hash, error) {
+	h, id, warm, err := c08CommitInner(repo, gr, author, p, n)
+	return h, id, warm, err
+}
+
+func c08CommitInner(repo repository.ClockedRepo, gr *git.Repository, author identity.Interface, p c08Probe, n int) (repository.Hash, entity.Id, repository.Hash, error) {
 	tree, id, err := c08Tree(repo, author, fmt.Sprintf("probe %d", n), p.T, int64(1600001000+n))
 	if err != nil {
-		return "", "", err
+		return "", "", "", err
+	}
+	if p.Warm > 0 && p.Alter == 0 {
+		warm, err := repo.StoreSignedCommit(tree, c08Keys()[p.Warm-1].PGPEntity())
+		if err != nil {
+			return "", "", "", err
+		}
+		var h repository.Hash
+		if p.Signer < 0 {
+			h, err = repo.StoreCommit(tree)
+		} else {
+			h, err = repo.StoreSignedCommit(tree, c08Keys()[p.Signer].PGPEntity())
+		}
+		return h, id, warm, err
 	}
 	if p.Signer < 0 {
 		h, err := repo.StoreCommit(tree)
-		return h, id, err
+		return h, id, "", err
 	}
 	signer := c08Keys()[p.Signer].PGPEntity()
 	if p.Alter == 0 {
 		h, err := repo.StoreSignedCommit(tree, signer)
-		return h, id, err
+		return h, id, "", err
 	}
 	// sign another tree, then make the commit point to this one while keeping the signature
 	var signedTree repository.Hash
@@ -506,29 +533,33 @@ func c08Commit(repo repository.ClockedRepo, gr *git.Repository, author identity.
 		}
 	}
 	if err != nil {
-		return "", "", err
+		return "", "", "", err
 	}
 	sh, err := repo.StoreSignedCommit(signedTree, signer)
 	if err != nil {
-		return "", "", err
+		return "", "", "", err
 	}
 	co, err := gr.CommitObject(plumbing.NewHash(string(sh)))
 	if err != nil {
-		return "", "", err
+		return "", "", "", err
 	}
 	if co.PGPSignature == "" {
-		return "", "", fmt.Errorf("signed commit carries no signature")
+		return "", "", "", fmt.Errorf("signed commit carries no signature")
 	}
 	co.TreeHash = plumbing.NewHash(string(tree))
 	obj := gr.Storer.NewEncodedObject()
 	if err := co.Encode(obj); err != nil {
-		return "", "", err
+		return "", "", "", err
 	}
 	h, err := gr.Storer.SetEncodedObject(obj)
 	if err != nil {
-		return "", "", err
+		return "", "", "", err
 	}
-	return repository.Hash(h.String()), id, nil
+	warm := repository.Hash("")
+	if p.Alter == 2 {
+		warm = sh // same operations, genuinely signed (with the other edit time)
+	}
+	return repository.Hash(h.String()), id, warm, nil
 }
 
 // c08Read: 0 returned the bug, 1 returned an error, 2 panicked
@@ -691,7 +722,7 @@ func (c08Driver) Run(raw json.RawMessage) Case {
 	hashes := make([]repository.Hash, len(in.Probes))
 	seenHash := map[repository.Hash]bool{}
 	for i, p := range in.Probes {
-		h, id, err := c08Commit(repo, gr, author, p, i)
+		h, id, warm, err := c08CommitWarm(repo, gr, author, p, i)
 		if err != nil {
 			return Case{Skip: "probe commit: " + err.Error()}
 		}
@@ -701,6 +732,13 @@ func (c08Driver) Run(raw json.RawMessage) Case {
 		seenHash[h] = true
 		ids[i], hashes[i] = id, h
 		local := "refs/bugs/" + string(id)
+		if warm != "" {
+			// the genuinely signed twin is read first, in this process
+			if err := repo.UpdateRef(local, warm); err != nil {
+				return Case{Skip: "update ref: " + err.Error()}
+			}
+			_, _ = c08Read(repo, id)
+		}
 		if err := repo.UpdateRef(local, h); err != nil {
 			return Case{Skip: "update ref: " + err.Error()}
 		}
